@@ -217,7 +217,17 @@ int utimensat(int dirfd, const char *path, const struct timespec t[2], int fl) {
 ssize_t read(int fd, void *buf, size_t n) { REAL(read); char a[32]; snprintf(a, sizeof a, "%zu", n); FDCALL("read", fd, g_fdtarget[fd], real_read(fd, buf, n), a) return (ssize_t)r; }
 ssize_t pread64(int fd, void *buf, size_t n, off64_t off) { REAL(pread64); char a[32]; snprintf(a, sizeof a, "%zu", n); FDCALL("read", fd, g_fdtarget[fd], real_pread64(fd, buf, n, off), a) return (ssize_t)r; }
 ssize_t readv(int fd, const struct iovec *iov, int c) { REAL(readv); FDCALL("read", fd, g_fdtarget[fd], real_readv(fd, iov, c), "v") return (ssize_t)r; }
-ssize_t write(int fd, const void *buf, size_t n) { REAL(write); char a[32]; snprintf(a, sizeof a, "%zu", n); FDCALL("write", fd, g_fdtarget[fd], real_write(fd, buf, n), a) return (ssize_t)r; }
+ssize_t write(int fd, const void *buf, size_t n) {
+    REAL(write); char a[32]; snprintf(a, sizeof a, "%zu", n);
+    /* SHORT WRITE (fail_errno == -1): call number fail_k stores only the first half and returns the short count - the way ENOSPC,
+     * EFBIG, a quota or a signal really show on a regular file; the caller has to notice and write the rest */
+    if (!g_busy && g_mode && (g_mode & 2) && g_fail_errno == -1 && in_scope_fd(fd) && g_k == g_fail_k && n > 1) {
+        long k = g_k++; char nb[32]; const char *nm = fdname(fd, nb, sizeof nb);
+        ssize_t r = real_write(fd, buf, n / 2); int e = errno;
+        logline(k, "write", nm, "short", (long)r, r < 0 ? e : 0); errno = e; return r;
+    }
+    FDCALL("write", fd, g_fdtarget[fd], real_write(fd, buf, n), a) return (ssize_t)r;
+}
 ssize_t pwrite64(int fd, const void *buf, size_t n, off64_t off) { REAL(pwrite64); char a[32]; snprintf(a, sizeof a, "%zu", n); FDCALL("write", fd, g_fdtarget[fd], real_pwrite64(fd, buf, n, off), a) return (ssize_t)r; }
 ssize_t writev(int fd, const struct iovec *iov, int c) { REAL(writev); FDCALL("write", fd, g_fdtarget[fd], real_writev(fd, iov, c), "v") return (ssize_t)r; }
 int fsync(int fd) { REAL(fsync); FDCALL("fsync", fd, 0, real_fsync(fd), "") return (int)r; }
